@@ -164,6 +164,12 @@ class SessionManager:
         for network_interface in self.node.network_interfaces.values():
             if dst_ip_address in network_interface.ip_network and network_interface.enabled:
                 return network_interface
+        default_gateway = getattr(self.node.config, "default_gateway", None)
+        if default_gateway and IPv4Address(dst_ip_address) == default_gateway:
+            # The default gateway itself is not on an enabled local network: it cannot be reached through itself.
+            # Asking ARP for the gateway's interface here would send another ARP request for the gateway, which resolves
+            # its outbound interface here again, without end.
+            return None
         return self.software_manager.arp.get_default_gateway_network_interface()
 
     def resolve_outbound_transmission_details(
